@@ -17,6 +17,9 @@ pub const MAX_MSGS: usize = 96;
 
 pub const UNBOUNDED_LIMIT: u32 = 5_000;
 
+pub const ERR_NURSE_SPAWN: u32 = u32::MAX - 1;
+pub const ERR_NURSE_CLOSED: u32 = u32::MAX - 2;
+
 #[derive(Debug)]
 pub struct HErr(pub u32);
 impl fmt::Display for HErr {
@@ -199,7 +202,12 @@ impl World {
                 return i as u32;
             }
         }
-        u32::MAX
+        // the errors with which interval refuses a subscription
+        match e.downcast_ref::<async_nursery::NurseErr>() {
+            Some(async_nursery::NurseErr::Spawn) => ERR_NURSE_SPAWN,
+            Some(async_nursery::NurseErr::Closed) => ERR_NURSE_CLOSED,
+            None => u32::MAX,
+        }
     }
     fn msg_of<I: ToVal, O>(&self, m: &Message<I, O>) -> M {
         match m {
